@@ -311,6 +311,13 @@ func (s *S) Run(c *scen.Ctx) {
 			simrt.Sleep(250*time.Millisecond + 13*time.Microsecond)
 		}
 	})
+	// caller-side variations that must not change the health accounting: calls bounded by the
+	// caller's own cancellation instead of a deadline, and hash-routed calls (also with codes
+	// >= 2^31) among the plain ones
+	cancelMode := !s.hashMode && !s.mgrMode && simrt.Draw(4, "c15.cancelmode") == 3
+	someHash := !s.hashMode && !s.mgrMode && simrt.Draw(4, "c15.somehash") == 3
+	c.Describe("calls_cancelled_by_caller", cancelMode)
+	c.Describe("some_calls_hash_routed", someHash)
 	gaps := []int{50, 120, 400, 1000, 1900}
 	gi := simrt.Draw(len(gaps), "c15.callgap")
 	k := 0
@@ -328,10 +335,24 @@ func (s *S) Run(c *scen.Ctx) {
 			}
 			cr.modCache = cache
 		}
+		if someHash && simrt.Draw(3, "c15.hashcall") == 2 {
+			current.SetClientHash(ctx, simrt.Draw(2, "c14.type"), []uint32{7, 0x80000001, 0x9E3779B9, 0xFFFFFFFF, 1000003}[simrt.Draw(5, "c15.hashcode")])
+			c.Count("probe.hash_routed_call_in_failover_run", 1)
+		}
+		cancelCall := func() {}
+		if cancelMode {
+			var cctx context.Context
+			cctx, cancelCall = context.WithCancel(ctx)
+			ctx = cctx
+			d := time.Duration(s.timeout) * time.Millisecond * 4 / 5
+			stopTimer := time.AfterFunc(d, cancelCall)
+			defer stopTimer.Stop()
+		}
 		var rsp requestf.ResponsePacket
 		cr.t0 = simrt.Elapsed()
 		cr.activeAt = s.activeNow()
 		err := s.prx.TarsInvoke(ctx, 0, "echo", payload, nil, nil, &rsp)
+		cancelCall()
 		cr.t1 = simrt.Elapsed()
 		cr.activeT1 = s.activeNow()
 		cr.err = err
@@ -700,7 +721,12 @@ func (s *S) checkHash(c *scen.Ctx) {
 		lag := time.Duration(s.refreshMs)*time.Millisecond + 1500*time.Millisecond
 		ok := false
 		var want []string
-		for _, set := range [][]string{cr.activeAt, cr.activeT1} {
+		// (the manager updates its endpoint list and the three selectors one after the other under a
+		// lock the selecting call does not take: the list installed in the mod-hash selector at the
+		// start of the call is a third legitimate view of "the current set")
+		inSel := append([]string(nil), cr.modList...)
+		sort.Strings(inSel)
+		for _, set := range [][]string{cr.activeAt, cr.activeT1, inSel} {
 			if len(set) == 0 {
 				ok = true // nothing in rotation: any endpoint may be tried (C15)
 				continue
